@@ -222,6 +222,19 @@ func (s *sim) caseRewindFixed(rng *rand.Rand) {
 	s.replay(1, 100)
 	s.doReopen(rng)
 	s.replay(0, 3)
+	// the remote replicator's handshake: follower in step / behind the acknowledged position / inside the
+	// window / at the appended position
+	if h := s.gs[0]; h != nil && !s.dead {
+		s.doReplHandshake(0, h.ConsumedSeq())
+		s.doReplHandshake(0, h.AcknowledgedSeq()-1)
+		s.doReplConsume(0)
+		s.doReplConsume(0)
+		s.doReplHandshake(0, h.AcknowledgedSeq()+1)
+		s.doReplHandshake(0, s.fq.Queue().AppendedSeq())
+		s.doSync()
+		s.doGC(rng)
+		s.readable("rhandshake", rng)
+	}
 	s.pages()
 }
 
@@ -246,6 +259,11 @@ func (s *sim) rewindRound(rng *rand.Rand, g int) {
 			s.doReplIgnore(g, lo+rng.Int63n(3))
 		}
 	case 5:
+		if rng.Intn(2) == 0 {
+			s.doReplHandshake(g, lo-1+rng.Int63n(app-lo+2)) // follower answers anything in [ack-1, appended]
+			s.doReplConsume(g)
+			break
+		}
 		s.doReplIgnore(g, lo+rng.Int63n(3))
 		s.doReplConsume(g)
 	case 0: // sequential: rewind, then an ack somewhere in [lo, old consumed + 1]
@@ -385,5 +403,53 @@ func (s *sim) replay(g int, max int) {
 			s.fail("replay-not-consecutive", "group %d: replay from ack+1 expected %d next, consumed position is %d", g, next, h.ConsumedSeq())
 		}
 		next++
+	}
+}
+
+// doReplHandshake: the position part of remoteReplicator.IsReady (replica/replicator_remote.go) once the
+// follower has answered rAck, statement by statement on the real base replicator (IsReady itself needs a gRPC
+// client and the state manager; its skeleton is the regenerated fact remoteHandshake). Only answers at or below
+// the appended position: the follower-ahead branch is an explicit index reset (setapp covers it).
+//
+//	rhandshake g rAck   = Glue.handshakeOps
+func (s *sim) doReplHandshake(g int, rAck int64) {
+	r := s.repl(g)
+	if r == nil || s.reset || rAck > s.fq.Queue().AppendedSeq() {
+		return
+	}
+	s.op("rhandshake", g, rAck, fmt.Sprintf("rhandshake %d %d", g, rAck), func() string {
+		localReplicaIdx := r.ReplicaIndex()
+		nextReplicaIdx := rAck + 1
+		if nextReplicaIdx == localReplicaIdx {
+			return s.replIdx(g, r)
+		}
+		appendIdx := r.AppendIndex()
+		smallestAckIdx := r.AckIndex()
+		switch {
+		case rAck < smallestAckIdx:
+			needResetReplicaIdx := smallestAckIdx + 1
+			r.ResetReplicaIndex(needResetReplicaIdx)
+			return s.replIdx(g, r)
+		case nextReplicaIdx > appendIdx:
+			r.ResetAppendIndex(nextReplicaIdx) // not reached (guard above)
+		}
+		r.ResetReplicaIndex(nextReplicaIdx)
+		r.SetAckIndex(rAck)
+		return s.replIdx(g, r)
+	})
+}
+
+// oracleHandshake: theorem handshake_positions on the observed positions.
+func (s *sim) oracleHandshake(g int, rAck int64, bp, ap gpos, b, a snapshot) {
+	want := bp
+	if rAck+1 != bp.c+1 {
+		m := rAck
+		if rAck < bp.a {
+			m = bp.a
+		}
+		want = gpos{m, m}
+	}
+	if ap != want || a.app != b.app || a.ack != b.ack {
+		s.fail("handshake-positions", "handshake with follower ack %d on %v (queue %d/%d) gave %v (queue %d/%d), expected %v", rAck, bp, b.app, b.ack, ap, a.app, a.ack, want)
 	}
 }
